@@ -157,3 +157,20 @@ Definition trim (s : str) : str := rev (ltrim (rev (ltrim s))).
 Definition rtoi (s : str) : option N :=
   let t := trim (map to_upper s) in
   match t with [] => Some 0 | _ => roman_eval t end.
+
+(* ------------------------------------------------------------------ sort wrappers: which Go function the glue reaches *)
+Open Scope Z_scope.
+Inductive gosortfn := GoSlice | GoSliceStable | GoStable | GoSort | GoInts | GoStrings | GoFloat64s | GoSearch | GoOther.
+Definition go_is_stable (f : gosortfn) : bool := match f with GoSliceStable | GoStable => true | _ => false end.
+(* Ego entries that promise stability: "SliceStable", "Stable" *)
+Definition name_SliceStable : str := [83; 108; 105; 99; 101; 83; 116; 97; 98; 108; 101]%N.
+Definition name_Stable : str := [83; 116; 97; 98; 108; 101]%N.
+Definition ego_stable_name (n : str) : bool := str_eqb n name_SliceStable || str_eqb n name_Stable.
+(* one row of the regenerated table: Ego name, Go sort functions its wrapper reaches (go/ast over the package) *)
+Definition row_ok (r : str * list gosortfn) : bool :=
+  if ego_stable_name (fst r) then (match snd r with [] => false | _ => true end) && forallb go_is_stable (snd r) else true.
+Definition table_ok (tbl : list (str * list gosortfn)) : bool := forallb row_ok tbl.
+Definition has_row (n : str) (tbl : list (str * list gosortfn)) : bool := existsb (fun r => str_eqb (fst r) n) tbl.
+(* equal keys keep their input order *)
+Definition keep_order (key : sv -> Z) (l out : list sv) : Prop :=
+  forall k, filter (fun x => key x =? k) out = filter (fun x => key x =? k) l.
